@@ -6621,6 +6621,10 @@ func str(arg any) string {
 		return v.Format(time.RFC3339Nano)
 	case time.Duration:
 		return strconv.FormatInt(v.Nanoseconds(), 10)
+	case float64:
+		return strconv.FormatFloat(v, 'f', -1, 64)
+	case float32:
+		return strconv.FormatFloat(float64(v), 'f', -1, 32)
 	case encoding.BinaryMarshaler:
 		if data, err := v.MarshalBinary(); err == nil {
 			return rueidis.BinaryString(data)
